@@ -32,7 +32,8 @@ class Contract:
                loops=None, kind='contract', allocates=True, props=(), params=None,
                calls=None, note='', defaults=None, may_raise=(), abstract=False,
                types=None, lemmas=None, defs=None, hints=None, cases=None, recdefs=None,
-               facts=None, entry_facts=None):
+               facts=None, entry_facts=None, cm=False, enter_ensures=None, exit_post=None,
+               exc_rel=None, swallows=None, havoc_all=False):
     self.id = cid
     self.file = file
     self.qualname = qualname
@@ -64,6 +65,15 @@ class Contract:
     self.recdefs = recdefs
     self.facts = facts           # Ctx(exit) -> instances available at every exit
     self.entry_facts = entry_facts
+    # generator-based context managers (@contextlib.contextmanager): `raises`/`enter_ensures`
+    # describe __enter__; `exit_post(c)` relates c.body (heap when the body finished) to c.heap;
+    # `exc_rel(c, E, F)` relates the exception E raised by the body to the escaping exception F
+    self.cm = cm
+    self.havoc_all = havoc_all   # the callee may modify any heap location (arbitrary user code)
+    self.enter_ensures = enter_ensures
+    self.exit_post = exit_post
+    self.exc_rel = exc_rel
+    self.swallows = swallows     # Ctx, E -> Bool: body exception may be suppressed (default never)
     self.cases = cases           # Ctx(pre) -> [z3 Bool atoms]: exhaustive case split for the solver
     self.hints = hints           # Ctx(post) -> [z3 Bool]: proved, then assumed, at every exit
     REGISTRY[cid] = self
@@ -77,7 +87,9 @@ def contract(cid, file, qualname, **kw):
 class Ctx:
   """What a clause can see: entry values, entry heap, current heap, result."""
 
-  def __init__(self, args, old, heap, result=None, env=None, k=None, exc=None):
+  def __init__(self, args, old, heap, result=None, env=None, k=None, exc=None, body=None):
+    self.caller = None        # at call sites of abstract callables: the caller's locals
+    self.body = body          # Heap right after the with-body finished (context managers)
     self.args = args          # name -> Val term (entry values of the parameters)
     self.old = old            # Heap at function entry
     self.heap = heap          # Heap now (post-state in `ensures`)
